@@ -3,7 +3,7 @@
 VERIF_REPO ?= /repo
 FLAVOUR ?= asan
 B := build
-SIMDIR := $(B)/sim-$(FLAVOUR)
+SIMDIR := $(B)/sim
 KEY := $(shell printf '%s' '$(VERIF_REPO)' | md5sum | cut -c1-10)
 RDIR := $(B)/repo-$(KEY)-$(FLAVOUR)
 
